@@ -152,6 +152,8 @@ pub fn run_fix(toks: &[&str]) -> String {
                             b.preferred_pm_profile([Unspecified, Desktop, Mobile, Workstation, EnterpriseServer, SohoServer, AppliancePc, PerformanceServer, Tablet][v[0] as usize])
                         }
                         "set" => { fadt_set(&mut b, v[0], v[1]); b }
+                        // the crate-managed header field is public too: a stale value must not reach the image
+                        "stalecks" => { b.checksum = v[0] as u8; b }
                         "gas" => { fadt_gas(&mut b, v[0], gas_of(&v[1..])); b }
                         _ => panic!("fadt op"),
                     };
@@ -197,7 +199,8 @@ const FADT_SLOTS: [(u64, u32); 45] = [(0, 32), (1, 32), (3, 8), (4, 16), (5, 32)
     (47, 64), (98, 64), (16, 32), (37, 32), (5, 32)];
 
 fn fadt_op(r: &mut Rng) -> String {
-    match r.below(12) {
+    match r.below(13) {
+        12 => format!("stalecks={}", r.scalar(8)),
         0 => format!("dsdt32={}", r.scalar(32)),
         1 => format!("dsdt64={}", r.scalar(64)),
         2 => format!("fc32={}", r.scalar(32)),
@@ -249,6 +252,7 @@ pub fn gen_fix(r: &mut Rng, tier: &str, emit: &mut dyn FnMut(String)) {
     emit(hdr(r, "fadt", "-"));
     for f in 0..25 { emit(format!("{} ; flag={}", hdr(r, "fadt", "-"), f)); }
     for p in 0..9 { emit(format!("{} ; profile={}", hdr(r, "fadt", "-"), p)); }
+    for c in [0u64, 1, 0x5a, 0x80, 0xff] { emit(format!("{} ; stalecks={}", hdr(r, "fadt", "-"), c)); emit(format!("{} ; stalecks={} ; set=4.9 ; flag=3", hdr(r, "fadt", "-"), c)); }
     // every ordered pair of flags (an option must not disturb a bit set earlier or later), ordered
     // triples over the multi-bit neighbourhood (bits 20..23), a direct write of the flags field
     // before/after a flag call, and random flag-only programs
